@@ -2,7 +2,13 @@ import Amshan.Lemmas.GenCodeBase
 import Amshan.GeneratedCodeP1
 import Amshan.Model.P1
 /- Per-property part of the GeneratedCode equivalence lemmas (split so that a change to one translated
-   function only breaks the proofs of the property that function belongs to). -/
+   function only breaks the proofs of the property that function belongs to).
+
+   The proof is semantic: each generated fold is compared with the model step by step (`foldl_step_eq`: the
+   generated step is found by unification, never written down here), and the equality of one step is decided
+   (`grind`), so it does not depend on how the source spells the body (`crc ^= b` or `crc = b ^ crc`,
+   `if crc & 1` or `if crc & 1 == 1` or `if crc % 2`, shift before or inside the branches, temporaries, ...). -/
+set_option linter.unusedSimpArgs false   -- simp sets are deliberately wider than one spelling of the source needs
 namespace Amshan.GenLemmas
 open Amshan.GenCode Amshan.Gen
 
@@ -13,22 +19,19 @@ theorem crcBits_eq_iter (n c : Nat) : P1.crcBits n c = iter P1.crcBit n c := by
   | zero => rfl
   | succ n ih => simp [P1.crcBits, iter, ih]
 
-theorem and_one_ne_zero (c : Nat) : ((c &&& 1) != 0) = decide (c &&& 1 = 1) := by
-  rcases Nat.mod_two_eq_zero_or_one c with h | h <;> simp [Nat.and_one_is_mod, h]
-
 theorem p1CalculateCrc16_eq (readout : List Nat) (endPos : Nat) :
     p1CalculateCrc16 readout endPos = P1.crc16 (readout.take (endPos + 1)) := by
   unfold p1CalculateCrc16 P1.crc16
-  simp only [List.drop_zero]
-  refine forIn_list_proj Prod.fst P1.crcByte _ _ _ ?_
-  intro a s
-  refine ⟨_, rfl, ?_⟩
-  show Id.run (forIn _ _ _) = _
-  rw [P1.crcByte, crcBits_eq_iter, ← foldl_range'_const (a := 0)]
-  refine forIn_range_proj id _ 0 8 _ _ ?_
-  intro _ c
-  simp only [id, and_one_ne_zero, P1.crcBit, decide_eq_true_eq]
-  split <;> exact ⟨_, rfl, rfl⟩
-
+  try simp only [List.drop_zero]
+  rw [foldl_step_eq (g := P1.crcByte)]
+  intro c b
+  rw [foldl_step_eq (g := fun s _ => P1.crcBit s)]
+  · rw [foldl_range'_const, P1.crcByte, crcBits_eq_iter]; gen_decide
+  · intro s _
+    have hbit := bit_cases s
+    unfold P1.crcBit crc16Poly
+    first
+    | grind
+    | (rcases hbit with hbit | hbit <;> simp [and_mask1, mask1_and, hbit] <;> gen_decide)
 
 end Amshan.GenLemmas
